@@ -8,10 +8,15 @@
 (* class switch is_enabled, pickling).  ExecStatusProc composes the same       *)
 (* definitions (ExecStatusDefs) into disciplines and an MDOChain.              *)
 (*                                                                             *)
-(* One action = one public call.  Besides the state of the two objects the     *)
-(* module keeps the *outputs* of the last call: emit (notifications received   *)
-(* by the observers, in order), res (returned / raised) and seen (what the     *)
-(* three getters answer), which the binding compares with the real objects.    *)
+(* One action = one public call.  Every call is a function XxxR(args) of the   *)
+(* current state returning [ok, err, w]: the action commits w; the *outputs*   *)
+(* of the call (result r.err, notifications r.w.emit received by the observers *)
+(* in order) label the transition - they are not variables, so they do not     *)
+(* multiply the states.  `seen` is what the three getters answer in the state. *)
+(* `Dump` (an "invariant" that prints) writes, for every reachable state, the  *)
+(* state and its labelled out-transitions <<call, result, notifications, next  *)
+(* state>>: the binding replays a transition tour of that graph on real        *)
+(* objects and compares result, notifications, status and seen after each call.*)
 EXTENDS ExecStatusDefs
 
 CONSTANTS
@@ -24,21 +29,23 @@ CONSTANTS
     MaxCnt, MaxDur
 
 P == {"u"}
-VARIABLES st, att, en, nx, nl, du, emit, res, seen
-vars == <<st, att, en, nx, nl, du, emit, res, seen>>
+VARIABLES st, att, en, nx, nl, du, seen
+vars == <<st, att, en, nx, nl, du, seen>>
 
-World == [st |-> st, att |-> att, en |-> en, nx |-> nx, nl |-> nl, du |-> du, emit |-> <<>>, t |-> 0]
-SeenOf(e, x, l, d) == [p \in P |-> IF e THEN <<x[p], l[p], d[p]>> ELSE <<None, None, None>>]
+World == TLCEval([st |-> st, att |-> att, en |-> en, nx |-> nx, nl |-> nl, du |-> du, emit |-> <<>>, t |-> 0])
+SeenOf(e, x, l, d) == TLCEval([p \in P |-> IF e THEN <<x[p], l[p], d[p]>> ELSE <<None, None, None>>])
+StateOf(w) == [st |-> w.st, att |-> w.att, en |-> w.en, nx |-> w.nx, nl |-> w.nl, du |-> w.du,
+               seen |-> SeenOf(w.en, w.nx, w.nl, w.du)]
+Edge(call, r) == <<call, r.err, r.w.emit, StateOf(r.w)>>
 
 Commit(r) ==
-    /\ st' = r.w.st /\ att' = r.w.att /\ nx' = r.w.nx /\ nl' = r.w.nl /\ du' = r.w.du
-    /\ emit' = r.w.emit /\ res' = r.err /\ en' = en
+    /\ st' = r.w.st /\ att' = r.w.att /\ nx' = r.w.nx /\ nl' = r.w.nl /\ du' = r.w.du /\ en' = r.w.en
     /\ seen' = SeenOf(en', nx', nl', du')
 
 Init ==
     /\ st = [p \in P |-> "DONE"] /\ att = [p \in P |-> {}] /\ en = TRUE
     /\ nx = [p \in P |-> 0] /\ nl = [p \in P |-> 0] /\ du = [p \in P |-> 0]
-    /\ emit = <<>> /\ res = OkRes /\ seen = SeenOf(TRUE, nx, nl, du)
+    /\ seen = SeenOf(TRUE, nx, nl, du)
 
 Cost(kind) == IF kind = "lin" THEN 2 ELSE 1
 
@@ -50,81 +57,117 @@ RunBody(w, p, b, n) ==
       [] b = "nestedLINEARIZING" -> Handle(Tick(w, n), p, "LINEARIZING", "none", LAMBDA v : Ok(v))
 
 \* execution_status.value = s
-Set(p, s) == p \in P /\ Commit(SetTo(World, p, s))
-
+SetR(p, s) == SetTo(World, p, s)
 \* execution_status.handle(s, execution_statistics.record_<kind>, body)   [_execute_monitored, linearize]
-HandleCall(p, s, kind, b) ==
-    p \in P /\ Commit(Handle(World, p, s, kind, LAMBDA v : RunBody(v, p, b, Cost(kind))))
-
+HandleR(p, s, kind, b) == Handle(World, p, s, kind, LAMBDA v : RunBody(v, p, b, Cost(kind)))
 \* execution_statistics.record_<kind>(body) without status
-RecordCall(p, kind, b) ==
-    /\ kind # "none" /\ b \in {"ok", "raise"}
-    /\ Commit(Record(World, p, kind, LAMBDA v : RunBody(v, p, b, Cost(kind))))
-
-AddObs(p, o)    == p \in P /\ Commit(Ok([World EXCEPT !.att[p] = @ \cup {o}]))
-RemoveObs(p, o) == p \in P /\ Commit(Ok([World EXCEPT !.att[p] = @ \ {o}]))
-
+RecordR(p, kind, b) == Record(World, p, kind, LAMBDA v : RunBody(v, p, b, Cost(kind)))
+AddObsR(p, o)    == Ok([World EXCEPT !.att[p] = @ \cup {o}])
+RemoveObsR(p, o) == Ok([World EXCEPT !.att[p] = @ \ {o}])
 \* ExecutionStatistics.is_enabled = not ExecutionStatistics.is_enabled   (class attribute)
-Toggle ==
-    /\ en' = ~en /\ UNCHANGED <<st, att, nx, nl, du>>
-    /\ emit' = <<>> /\ res' = OkRes /\ seen' = SeenOf(en', nx', nl', du')
-
+ToggleR == Ok([World EXCEPT !.en = ~@])
 \* the setters of n_executions / n_linearizations / duration: RuntimeError while disabled
-SetCounter(p, which, v) ==
-    p \in P /\ IF ~en THEN Commit(R(FALSE, <<"Disabled", p, which, "-">>, World))
-    ELSE Commit(Ok([World EXCEPT !.nx[p] = IF which = "nx" THEN v ELSE @,
-                                 !.nl[p] = IF which = "nl" THEN v ELSE @,
-                                 !.du[p] = IF which = "du" THEN v ELSE @]))
-
+SetCounterR(p, which, v) ==
+    IF ~en THEN R(FALSE, <<"Disabled", p, which, "-">>, World)
+    ELSE Ok([World EXCEPT !.nx[p] = IF which = "nx" THEN v ELSE @,
+                          !.nl[p] = IF which = "nl" THEN v ELSE @,
+                          !.du[p] = IF which = "du" THEN v ELSE @])
 \* pickle round trip of both objects (serializable.py + _ATTR_NOT_TO_SERIALIZE as coded):
 \* the status and the counters come back, the observers do not
-Pickle(p) == p \in P /\ Commit(Ok([World EXCEPT !.att[p] = {}]))
+PickleR(p) == Ok([World EXCEPT !.att[p] = {}])
 
+Set(p, s)              == p \in P /\ Commit(SetR(p, s))
+HandleCall(p, s, k, b) == p \in P /\ Commit(HandleR(p, s, k, b))
+RecordCall(p, k, b)    == p \in P /\ Commit(RecordR(p, k, b))
+AddObs(p, ob)          == p \in P /\ Commit(AddObsR(p, ob))
+RemoveObs(p, ob)       == p \in P /\ Commit(RemoveObsR(p, ob))
+Toggle                 == TRUE /\ Commit(ToggleR)
+SetCounter(p, c, v)    == p \in P /\ Commit(SetCounterR(p, c, v))
+Pickle(p)              == p \in P /\ Commit(PickleR(p))
+
+RecKinds == Kinds \ {"none"}
+RecBodies == Bodies \cap {"ok", "raise"}
 Next ==
     \/ \E p \in P, s \in SetVals : Set(p, s)
     \/ \E p \in P, s \in HandleVals, k \in Kinds, b \in Bodies : HandleCall(p, s, k, b)
-    \/ \E p \in P, k \in Kinds, b \in Bodies : RecordCall(p, k, b)
-    \/ \E p \in P, o \in Obs : AddObs(p, o) \/ RemoveObs(p, o)
+    \/ \E p \in P, k \in RecKinds, b \in RecBodies : RecordCall(p, k, b)
+    \/ \E p \in P, ob \in Obs : AddObs(p, ob) \/ RemoveObs(p, ob)
     \/ Toggle
-    \/ \E p \in P, which \in {"nx", "nl", "du"}, v \in CounterVals : SetCounter(p, which, v)
+    \/ \E p \in P, c \in {"nx", "nl", "du"}, v \in CounterVals : SetCounter(p, c, v)
     \/ \E p \in P : Pickle(p)
 
 Spec == Init /\ [][Next]_vars
+\* (two names: TLC's coverage mode cannot evaluate the CONSTRAINT operator inside another definition)
+InBound == \A p \in P : nx[p] <= MaxCnt /\ nl[p] <= MaxCnt /\ du[p] <= MaxDur
 
-Bound == \A p \in P : nx[p] <= MaxCnt /\ nl[p] <= MaxCnt /\ du[p] <= MaxDur
+\* the labelled state graph: one JSON line per reachable state (run with one worker)
+Edges == <<
+    {Edge(<<"Set", p, s>>, SetR(p, s)) : p \in P, s \in SetVals},
+    {Edge(<<"HandleCall", p, s, k, b>>, HandleR(p, s, k, b)) : p \in P, s \in HandleVals, k \in Kinds, b \in Bodies},
+    {Edge(<<"RecordCall", p, k, b>>, RecordR(p, k, b)) : p \in P, k \in RecKinds, b \in RecBodies},
+    {Edge(<<"AddObs", p, ob>>, AddObsR(p, ob)) : p \in P, ob \in Obs},
+    {Edge(<<"RemoveObs", p, ob>>, RemoveObsR(p, ob)) : p \in P, ob \in Obs},
+    {Edge(<<"Toggle">>, ToggleR)},
+    {Edge(<<"SetCounter", p, c, v>>, SetCounterR(p, c, v)) : p \in P, c \in {"nx", "nl", "du"}, v \in CounterVals},
+    {Edge(<<"Pickle", p>>, PickleR(p)) : p \in P} >>
+AtInit == StateOf(World) = [st |-> [p \in P |-> "DONE"], att |-> [p \in P |-> {}], en |-> TRUE,
+                             nx |-> [p \in P |-> 0], nl |-> [p \in P |-> 0], du |-> [p \in P |-> 0],
+                             seen |-> [p \in P |-> <<0, 0, 0>>]]
+Bound == InBound
+Dump == InBound => PrintT(ToJson(<<"G", AtInit, StateOf(World), Edges>>))   \* states outside the bound are not nodes
 
 -----------------------------------------------------------------------------
+\* The properties are stated on every call possible in a state (its result r against the state it starts from)
+SetResults    == {SetR(p, s) : p \in P, s \in SetVals}
+HandleResults == {HandleR(p, s, k, b) : p \in P, s \in HandleVals, k \in Kinds, b \in Bodies}
+RecordResults == {RecordR(p, k, b) : p \in P, k \in RecKinds, b \in RecBodies}
+OtherResults  == {AddObsR(p, ob) : p \in P, ob \in Obs} \cup {RemoveObsR(p, ob) : p \in P, ob \in Obs}
+                 \cup {ToggleR} \cup {PickleR(p) : p \in P}
+                 \cup {SetCounterR(p, c, v) : p \in P, c \in {"nx", "nl", "du"}, v \in CounterVals}
+Results == SetResults \cup HandleResults \cup RecordResults \cup OtherResults
+SameCounters(w) == w.nx = nx /\ w.nl = nl /\ w.du = du
+
 TypeOK ==
     /\ st \in [P -> Statuses] /\ att \in [P -> SUBSET Obs] /\ en \in BOOLEAN
     /\ nx \in [P -> Nat] /\ nl \in [P -> Nat] /\ du \in [P -> Nat]
-    /\ res \in Seq(STRING) /\ Len(res) = 4
 
 \* the getters answer None exactly while disabled, the stored values otherwise
 SeenOK == seen = SeenOf(en, nx, nl, du)
 
-\* a one-shot observer is notified at most once per attachment: never by two notifications of one call
-OneShotOnce ==
-    \A i, j \in 1..Len(emit) : (i < j /\ emit[i][1] = emit[j][1]) => (emit[i][3] \cap emit[j][3] \cap OneShot = {})
-
-\* the observers see exactly the sequence of status settings: what a call emitted is a chain of accepted
+\* the observers see exactly the sequence of status settings: what a call emits is a chain of accepted
 \* settings from the old status to the new one (no silent change, no notification without setting)
-EmitChain == [][\A p \in P : ChainOK(st[p], EmitOf(emit', p), st'[p])]_vars
+EmitChain == \A r \in Results : \A p \in P : ChainOK(st[p], EmitOf(r.w.emit, p), r.w.st[p])
 
-\* a setting refused at the entry of the call (against the status the call found) changes nothing and notifies
+\* every notification goes to observers attached when the call began, and a one-shot observer is notified at
+\* most once per attachment: never by two notifications of one call
+OneShotOnce ==
+    \A r \in Results : \A i, j \in 1..Len(r.w.emit) :
+        /\ r.w.emit[i][3] \subseteq att[r.w.emit[i][1]]
+        /\ (i < j /\ r.w.emit[i][1] = r.w.emit[j][1]) => (r.w.emit[i][3] \cap r.w.emit[j][3] \cap OneShot = {})
+
+\* a setting refused at the entry of the call (against the status the call finds) changes nothing and notifies
 \* nobody; a refusal met inside the monitored function (re-entrance) is an exception of the body: FAILED
-RefusedAtEntry == res'[1] \in {"Invalid", "Disabled"} \/ (res'[1] = "Refused" /\ res'[4] = st[res'[2]])
-RefusalIsSilent == [][RefusedAtEntry => (emit' = <<>> /\ UNCHANGED <<st, att, nx, nl, du>>)]_vars
+RefusedAtEntry(r) == r.err[1] \in {"Invalid", "Disabled"} \/ (r.err[1] = "Refused" /\ r.err[4] = st[r.err[2]])
+RefusalIsSilent == \A r \in Results : RefusedAtEntry(r) => (r.w = World)
 
 \* nothing is recorded while disabled; a call that raised records nothing
-DisabledRecordsNothing == [][~en => UNCHANGED <<nx, nl, du>>]_vars
-FailedRecordsNothing   == [][res'[1] # "ok" => UNCHANGED <<nx, nl, du>>]_vars
+DisabledRecordsNothing == ~en => \A r \in Results : SameCounters(r.w)
+FailedRecordsNothing   == \A r \in Results : ~r.ok => SameCounters(r.w)
+\* a monitored call that returned recorded exactly one call of its kind and the ticks of its body
+SuccessRecordsOne ==
+    \A p \in P, s \in HandleVals, k \in RecKinds, b \in Bodies :
+        LET r == HandleR(p, s, k, b)
+        IN (r.ok /\ en) => /\ r.w.nx[p] = nx[p] + (IF k = "exec" THEN 1 ELSE 0)
+                           /\ r.w.nl[p] = nl[p] + (IF k = "lin" THEN 1 ELSE 0)
+                           /\ r.w.du[p] = du[p] + Cost(k)
 
 \* handle(): ends DONE when the body returned, FAILED when it raised, unchanged when refused at entry
 HandleOutcome ==
-    [][\A p \in P : (emit' # <<>> /\ emit'[1][2] \in Guarded /\ Len(emit') >= 2) =>
-          st'[p] = (IF res'[1] = "ok" THEN "DONE" ELSE "FAILED")]_vars
+    \A r \in HandleResults : \A p \in P :
+        r.w.st[p] = (IF r.ok THEN "DONE" ELSE IF RefusedAtEntry(r) THEN st[p] ELSE "FAILED")
 
 \* FAILED is left only by an explicit setting of the status (one notification): no handle() of a guarded
 \* status can start from FAILED - a process that failed once refuses to run until somebody resets it
-FailedIsSticky == [][\A p \in P : (st[p] = "FAILED" /\ st'[p] # "FAILED") => Len(emit') = 1]_vars
+FailedIsSticky ==
+    \A r \in Results : \A p \in P : (st[p] = "FAILED" /\ r.w.st[p] # "FAILED") => r \in SetResults
 =============================================================================
